@@ -459,4 +459,7 @@ brk("C05", "c05-time-format-memo-without-rate", IA, "def to_time_format(context:
 ben("C05", "c05-benign-time-format-memo-with-rate", IA, "def to_time_format(context: TemporalAttributeWritingContext, time: Fraction) -> str:\n  if context.time_expression_syntax is TimeExpressionSyntaxEnum.clock_time or context.frame_rate is None:\n    return str(ClockTime.from_seconds(time))\n",
     "_TIME_MEMO = {}\n\ndef to_time_format(context: TemporalAttributeWritingContext, time: Fraction) -> str:\n  key = (context.time_expression_syntax, context.frame_rate, time)\n  if key not in _TIME_MEMO:\n    _TIME_MEMO[key] = _to_time_format(context, time)\n  return _TIME_MEMO[key]\n\ndef _to_time_format(context: TemporalAttributeWritingContext, time: Fraction) -> str:\n  if context.time_expression_syntax is TimeExpressionSyntaxEnum.clock_time or context.frame_rate is None:\n    return str(ClockTime.from_seconds(time))\n")
 
+brk("C15", "c15-copy-to-self-guard-dropped", MODEL, "    if dest is self:\n      return\n\n    dest.set_begin(self.get_begin())", "    dest.set_begin(self.get_begin())", "LIVE-alias")
+ben("C15", "c15-benign-copy-to-self-guard-swapped", MODEL, "    if dest is self:\n      return\n\n    dest.set_begin(self.get_begin())", "    if self is dest:\n      return\n\n    dest.set_begin(self.get_begin())")
+
 VARIANTS = V
